@@ -230,7 +230,7 @@ def value_must_be_consumed(view, start, local, path, depth=0):
 
 
 def run(facts, report, config, scope_prefix=("modular::", "<modular::"), exclude_prefix=(), table="c08.toml",
-        auto_wrapping=False, counter="carry_returning_calls_in_modular"):
+        auto_wrapping=False, counter="carry_returning_calls_in_modular", stale_check=True):
     """Reviewed drops are keyed by (function, callee) with a count `drops` (default 1): an edit that adds or
     reorders *consumed* carry calls changes nothing; one that drops a further carry exceeds the count."""
     tab = load_table(table)
@@ -314,5 +314,5 @@ def run(facts, report, config, scope_prefix=("modular::", "<modular::"), exclude
                                     "non-zero)" % (seg, len(sites), b["id"], allowed), sites[-1][1],
                                     {"body": b["id"], "sites": [s for _, s in sites]}), config)
     for k in reviewed:
-        if k not in used:
+        if k not in used and stale_check:
             report.stale.append({"table": table, "key": k, "config": config})
